@@ -92,4 +92,11 @@ func NewSummaryCommand$1$1 returns (err)
   ghost before dyncall 1 {
     assert @files [C16] len(#arg0) == 2 && #arg0[0] == o.GlobalConfig.DbFileName && #arg0[1] == o.GlobalConfig.LogFileName
   }
+
+// the command's own flag table: the option names the options loader and the reporters read (C16)
+func NewSummaryCommand returns (cmd)
+  props C16 C08
+  ensures @name [C16] cmd != nil && cmd.Name == "summary"
+  ensures @flags [C16] len(cmd.Flags) == 0
+
 @*/
